@@ -586,7 +586,10 @@ class Date(FormattableMixin, date):
         if day_of_week is None:
             return dt.set(day=1)
 
-        month = calendar.monthcalendar(dt.year, dt.month)
+        # Monday-first weeks, whatever calendar.setfirstweekday() says
+        month = calendar.Calendar(calendar.MONDAY).monthdayscalendar(
+            dt.year, dt.month
+        )
 
         calendar_day = day_of_week
 
@@ -611,7 +614,10 @@ class Date(FormattableMixin, date):
         if day_of_week is None:
             return dt.set(day=self.days_in_month)
 
-        month = calendar.monthcalendar(dt.year, dt.month)
+        # Monday-first weeks, whatever calendar.setfirstweekday() says
+        month = calendar.Calendar(calendar.MONDAY).monthdayscalendar(
+            dt.year, dt.month
+        )
 
         calendar_day = day_of_week
 
